@@ -270,6 +270,12 @@ def run_dispatch(case, r):
             cls = W.WassersteinDistanceNewton if method == "newton" else W.WassersteinDistanceBregman
             direct = cls(darsia.generate_grid(i1), None, dict(o))(Wh.make_image(a, vs), Wh.make_image(b, vs))
         r.check(front == direct, f"C05/dispatch/{method}", "the unified front-end returns exactly what the back-end it dispatches to returns", front=front, direct=direct)
+        if method != "cv2.emd":
+            # with a cell weight image (forwarded to the back-end)
+            wimg = Wh.make_image(np.full(shape, 2.0), vs)
+            frontw = darsia.wasserstein_distance(Wh.make_image(a, vs), Wh.make_image(b, vs), method=method, weight=wimg, options=dict(o))
+            directw = cls(darsia.generate_grid(i1), Wh.make_image(np.full(shape, 2.0), vs), dict(o))(Wh.make_image(a, vs), Wh.make_image(b, vs))
+            r.check(frontw == directw and frontw != front, f"C05/dispatch/{method}/weighted", "the front-end forwards the cell weight to the back-end", front=frontw, direct=directw, unweighted=front)
         r.nontriv(method)
         # upper-case spelling dispatches alike
         if method != "cv2.emd":
